@@ -2,6 +2,7 @@
 //! strings.  Direct oracle: the documented field semantics computed from the delimiter matches.
 use regex::Regex;
 use skim::field::{get_string_by_field, parse_matching_fields, parse_transform_fields, FieldRange};
+use skim::prelude::{SkimItemReader, SkimItemReaderOption};
 use skv::*;
 use std::collections::BTreeSet;
 
@@ -68,6 +69,31 @@ fn main() {
         let line = gen_line(&mut r);
         let dstr = *r.pick(&DELIMS);
         let re = Regex::new(dstr).unwrap();
+        // item level: --nth together with --with-nth designates fields of the SHOWN text
+        if id % 6 == 5 && !line.contains('\n') && !line.contains('\0') && !line.is_empty() {
+            let nth = *r.pick(&["1", "2", "2..", "..2", "-1", "1,3", "3,1", "2..3"]);
+            let with_nth = *r.pick(&["2..", "1,3", "3,2,1", "..", "-2..", "2"]);
+            let (l2, d2) = (line.clone(), dstr.to_string());
+            let res = guarded(move || {
+                let opt = SkimItemReaderOption::default().delimiter(&d2).nth(nth).with_nth(with_nth).build();
+                let rx = SkimItemReader::new(opt).of_bufread(std::io::Cursor::new(format!("{}\n", l2).into_bytes()));
+                rx.iter().next().map(|it| (it.text().to_string(), it.get_matching_ranges().map(|v| v.to_vec())))
+            });
+            let input = format!("line={:?} delimiter={:?} --with-nth {} --nth {}", line, dstr, with_nth, nth);
+            dist.add("item-level nth+with-nth");
+            match res {
+                Err(e) => fails.push(OracleFailure { case: id, what: format!("panic: {}", e), known: None, input }),
+                Ok(None) => {}
+                Ok(Some((shown, got))) => {
+                    let fields: Vec<FieldRange> = nth.split(',').filter_map(FieldRange::from_str).collect();
+                    let want = parse_matching_fields(&re, &shown, &fields);
+                    if got.as_deref() != Some(&want[..]) {
+                        fails.push(OracleFailure { case: id, what: format!("matching ranges {:?} of the shown text {:?}; the --nth fields of the shown text are {:?}", got, shown, want), known: None, input });
+                    }
+                }
+            }
+            continue;
+        }
         let ms: Vec<(usize, usize)> = re.find_iter(&line).map(|m| (m.start(), m.end())).collect();
         let k = ms.len() as i64 + 1;
         let range = gen_range(&mut r, k);
